@@ -230,19 +230,20 @@ def dec (m : Mapper) (useNs : Bool) (f : Facts) (hd : Hd) (its : List (Item J)) 
   .list r
 
 /-- the comprehension of jsonml.py:126-131 -/
-def number (m : Mapper) : Nat → List J → Except Err (List (Item J))
+def number (m : Mapper) (useNs : Bool) : Nat → List J → Except Err (List (Item J))
   | _, [] => .ok []
   | k, e :: r =>
     match e with
     | .list [] => .error .leak                -- `e[0]` on an empty list: IndexError
     | .list (.atom "s" s :: _) => do
-        let r' ← number m k r
+        let r' ← number m useNs k r
         pure (.child (m.um s) false e :: r')
-    | .list (.dict _ :: _) => .error .leak    -- unmap_qname(dict): `qname[0]` raises KeyError
+    | .list (.dict _ :: _) =>                 -- unmap_qname(dict): `qname[0]` raises KeyError
+        if useNs then .error .leak else .error .typeErr
     | .list (_ :: _) => .error .typeErr       -- unmap_qname of a non-string: XMLSchemaTypeError
     | .elem .. => .error .leak                -- DataElement[0] is a DataElement, not a string
     | e => do
-        let r' ← number m (k + 1) r
+        let r' ← number m useNs (k + 1) r
         pure (.cdata k e :: r')
 
 /-- element_encode, jsonml.py:92-132 -/
@@ -267,14 +268,14 @@ def enc (m : Mapper) (useNs : Bool) (f : Facts) (name : String) (obj : J) : Exce
         | [] => .ok ({ tag, text := none, attrs := attributes, xmlns }, [])
         | [t] =>
           if f.simple || (f.emptyContent && f.mixed) then
-            .ok ({ tag, text := some t, attrs := attributes, xmlns }, [])
+            .ok ({ tag, text := if t.isNull then none else some t, attrs := attributes, xmlns }, [])
           else do
-            let c ← number m 1 body
+            let c ← number m useNs 1 body
             pure ({ tag, text := none, attrs := attributes, xmlns }, c)
         | _ => do
-            let c ← number m 1 body
+            let c ← number m useNs 1 body
             pure ({ tag, text := none, attrs := attributes, xmlns }, c)
-    | .dict _ => .error .leak                 -- unmap_qname(dict): KeyError
+    | .dict _ => if useNs then .error .leak else .error .valueErr   -- unmap_qname(dict): KeyError
     | _ => .error .typeErr
   | .elem .. => .error .leak
   | _ => .error .typeErr
